@@ -86,6 +86,10 @@ def _worker(task):
         out['functions'] = sorted(chk.functions); out['models'] = sorted(chk.models); out['queries'] = chk.queries
         out['unwinding'] = chk.unwinding; out['kernel_calls'] = lab.merge_stats['kernel_calls']
     except Unsupported as e:
+        if 'path budget exhausted' in str(e) and task.get('order_mode', 'perm') == 'perm' and task.get('max_perm', 1) > 1:
+            # every permutation of every small container gave more paths than the budget: fall back to the three global order policies
+            r2 = _worker(dict(task, order_mode='global', max_perm=1)); r2['task'] = task; r2['note'] = 'full permutations exceeded the path budget: three global iteration-order policies instead'
+            return r2
         out['error'] = 'unsupported: ' + str(e)[:300]
     except Exception as e:
         out['error'] = 'error: ' + repr(e)[:300] + ' ' + traceback.format_exc()[-800:]
